@@ -12,6 +12,7 @@ import (
 	"strconv"
 	"strings"
 	"sync"
+	"sync/atomic"
 	"time"
 
 	"github.com/cilium/statedb"
@@ -135,7 +136,18 @@ func genSched(cfg Config, emit func(string, bool, []string)) {
 		r := newRand(cfg.Seed, uint64(900+c))
 		var ops []string
 		add := func(f string, a ...any) { ops = append(ops, fmt.Sprintf(f, a...)) }
+		if c%100 == 99 {
+			// the first write transactions of a fresh table, opened in parallel without hooks
+			add("storm %d %d", 4+r.IntN(5), 60)
+			emit("sched storm", true, ops)
+			continue
+		}
 		ntab := 2 + r.IntN(2)
+		manyTables := c%7 == 6
+		if manyTables {
+			// lock sets of five and more tables, requested far out of order
+			ntab = 5 + r.IntN(2)
+		}
 		add("init %d", ntab)
 		sim := &schedSim{owner: map[int]int{}, mu: -1}
 		nthreads := 2 + r.IntN(3)
@@ -166,6 +178,16 @@ func genSched(cfg Config, emit func(string, bool, []string)) {
 					req = append(req, strconv.Itoa(x))
 				}
 			}
+			if manyTables && t == 0 {
+				// every table, the lowest one listed last
+				req, set = nil, map[int]bool{}
+				for _, x := range r.Perm(ntab - 1) {
+					req = append(req, strconv.Itoa(x+1))
+					set[x+1] = true
+				}
+				req = append(req, "0")
+				set[0] = true
+			}
 			var tabs []int
 			for x := range set {
 				tabs = append(tabs, x)
@@ -185,6 +207,16 @@ func genSched(cfg Config, emit func(string, bool, []string)) {
 		}
 		add("watches")
 		add("read")
+		if manyTables && c%14 == 6 {
+			// every thread released in turn, one step each, from the very start
+			add("lockstep")
+			add("enabled")
+			add("read")
+			add("closed")
+			add("watches")
+			emit("sched lockstep", true, ops)
+			continue
+		}
 		// schedule
 		mode := c % 3 // 0 random, 1 run-one-then-probe-at-every-point, 2 bursty
 		cur := -1
@@ -233,6 +265,7 @@ func genSched(cfg Config, emit func(string, bool, []string)) {
 				add("watches")
 			}
 		}
+		add("lockstep") // whatever is left runs to completion
 		add("enabled")
 		add("read")
 		add("closed")
@@ -616,8 +649,109 @@ func (e *schedExec) enabledSet() []int {
 	return en
 }
 
+// storm: n goroutines open the FIRST write transactions of a freshly registered table at the
+// same instant (no hooks, true parallelism), each incrementing one counter object; repeated
+// for a number of trials. Serialised writers end at n with never two of them inside
+// WriteTxn..Commit at once.
+func (e *schedExec) storm(o *Out, n, trials int) string {
+	statedb.VerifSetHook(nil)
+	statedb.VerifSetLockHook(nil)
+	for trial := 0; trial < trials; trial++ {
+		db := statedb.New()
+		tbl, err := statedb.NewTable(db, "fresh", ctrIndex, ctrLpmIndex, ctrTagIndex)
+		if err != nil {
+			panic(err)
+		}
+		var ready, inside, overlap, panics atomic.Int32
+		var wg sync.WaitGroup
+		for g := 0; g < n; g++ {
+			wg.Add(1)
+			go func() {
+				defer wg.Done()
+				defer func() {
+					if r := recover(); r != nil {
+						panics.Add(1)
+					}
+				}()
+				ready.Add(1)
+				for ready.Load() < int32(n) {
+				}
+				w := db.WriteTxn(tbl)
+				if inside.Add(1) > 1 {
+					overlap.Add(1)
+				}
+				cur := 0
+				if obj, _, ok := tbl.Get(w, ctrIndex.Query("c")); ok {
+					cur = obj.Val
+				}
+				tbl.Insert(w, &ctrObj{ID: "c", Val: cur + 1})
+				inside.Add(-1)
+				w.Commit()
+			}()
+		}
+		done := make(chan struct{})
+		go func() { wg.Wait(); close(done) }()
+		unfinished := 0
+		select {
+		case <-done:
+		case <-time.After(10 * time.Second):
+			unfinished = 1
+		}
+		cnt := 0
+		if obj, _, ok := tbl.Get(db.ReadTxn(), ctrIndex.Query("c")); ok {
+			cnt = obj.Val
+		}
+		if cnt != n || overlap.Load() > 0 || panics.Load() > 0 || unfinished > 0 {
+			o.Fail("C05", "first-writers-not-serialised", map[string]string{"goroutines": strconv.Itoa(n)},
+				fmt.Sprintf("trial %d: %d goroutines each opened a write transaction on a freshly registered table and incremented one counter: counter=%d (want %d), transactions observed inside WriteTxn..Commit together %d times, panics=%d, stuck=%d", trial, n, cnt, n, overlap.Load(), panics.Load(), unfinished))
+			return fmt.Sprintf("cnt=%d unfinished=%d", cnt, unfinished)
+		}
+	}
+	return fmt.Sprintf("cnt=%d unfinished=0", n)
+}
+
 func (e *schedExec) Do(o *Out, f []string) string {
 	switch f[0] {
+	case "lockstep":
+		// release the enabled threads round-robin, one step each, until every thread has
+		// finished or none can move
+		idx := 0
+		for fuel := 0; fuel < 4000; fuel++ {
+			en := e.enabledSet()
+			if len(en) == 0 {
+				break
+			}
+			pick := en[0]
+			for _, k := range en {
+				if k >= idx {
+					pick = k
+					break
+				}
+			}
+			r := e.Do(o, []string{"step", strconv.Itoa(pick)})
+			if r == "stuck" || r == "panic" {
+				return r
+			}
+			idx = pick + 1
+		}
+		alive := 0
+		for _, th := range e.threads {
+			if !th.done {
+				alive++
+			}
+		}
+		if alive == 0 {
+			return "finished"
+		}
+		if len(e.enabledSet()) == 0 && !e.stuck {
+			o.Fail("C10", "deadlock", map[string]string{"tables": strconv.Itoa(len(e.tables))}, fmt.Sprintf("%d unfinished threads and none can take a step (held: %v)", alive, e.holder))
+			return "deadlock"
+		}
+		return "out-of-fuel"
+	case "storm":
+		n, _ := strconv.Atoi(f[1])
+		trials, _ := strconv.Atoi(f[2])
+		return e.storm(o, n, trials)
 	case "init":
 		n, _ := strconv.Atoi(f[1])
 		e.db = statedb.New()
